@@ -45,6 +45,14 @@ func c09Gen(r *driver.Rand, thorough bool) *driver.Plan {
 			}
 		}
 	}
+	if stage == "fork.ForEach" && r.Chance(1, 3) {
+		p.Mode = driver.Pick(r, "try", "lift") // the visit function fails on some elements
+		for i := 0; i < n; i++ {
+			if r.Chance(1, 2) {
+				p.FailAt = append(p.FailAt, i)
+			}
+		}
+	}
 	// completion orders of in-flight calls: stalls and extra scheduling points
 	if r.Chance(1, 2) {
 		k := 1 + r.Intn(4)
@@ -77,6 +85,8 @@ func c09Gen(r *driver.Rand, thorough bool) *driver.Plan {
 	}
 	if p.CancelStep < 0 && p.CancelMs == 0 && !p.CancelAtEnd && r.Chance(1, 6) {
 		p.SetX("uses", 2)
+	} else if r.Chance(1, 8) {
+		p.SetX("late_build", 1+r.Intn(12))
 	}
 	return p
 }
@@ -172,7 +182,7 @@ func c09Final(e *driver.Env) {
 	}
 	stage, _ := baseStage(p.Stage)
 	complete := !e.Cancelled.Load() && s.InputsClosed() && s.AllDrained()
-	if p.Mode == "lift" && len(p.FailAt) > 0 {
+	if p.Mode == "lift" && len(p.FailAt) > 0 && stage != "ForEach" {
 		complete = false // fail-fast in a fork stage: only the upper-bound, closure and leak clauses apply
 	}
 	if complete {
